@@ -232,62 +232,62 @@ func (sf *svgFonts) familyOf(path []xmlElem) string {
 
 type c47Pos struct {
 	Name string
-	// Face: which embedded face the position draws with (suffix of the @font-face family: regular, bold, italic,
-	// semibold, mono, mono-bold, mono-italic) — used only to choose which font's runes are enumerated here.
-	Face     string
+	// Mono: the position draws with the mono family (else the proportional one); only used to choose which
+	// fonts' runes are enumerated here: the union of the cmaps of all styles of that family.
+	Mono     bool
 	MD       bool // text is markdown source: ASCII punctuation is left out
 	Appendix bool // run appendix.Append after rendering (PNG/PDF path)
 	Src      func(q, raw string) string
 }
 
 var c47Positions = []c47Pos{
-	{Name: "shape-label", Face: "regular", Src: func(q, _ string) string { return "a: " + q + "\n" }},
-	{Name: "container-label", Face: "regular", Src: func(q, _ string) string { return "a: " + q + " {b}\n" }},
-	{Name: "shape-label-bold", Face: "bold", Src: func(q, _ string) string { return "a: " + q + " {style.bold: true}\n" }},
-	{Name: "shape-label-italic", Face: "italic", Src: func(q, _ string) string { return "a: " + q + " {style.italic: true}\n" }},
-	{Name: "shape-label-mono", Face: "mono", Src: func(q, _ string) string { return "a: " + q + " {style.font: mono}\n" }},
-	{Name: "shape-label-mono-bold", Face: "mono-bold", Src: func(q, _ string) string {
+	{Name: "shape-label", Mono: false, Src: func(q, _ string) string { return "a: " + q + "\n" }},
+	{Name: "container-label", Mono: false, Src: func(q, _ string) string { return "a: " + q + " {b}\n" }},
+	{Name: "shape-label-bold", Mono: false, Src: func(q, _ string) string { return "a: " + q + " {style.bold: true}\n" }},
+	{Name: "shape-label-italic", Mono: false, Src: func(q, _ string) string { return "a: " + q + " {style.bold: false; style.italic: true}\n" }},
+	{Name: "shape-label-mono", Mono: true, Src: func(q, _ string) string { return "a: " + q + " {style.font: mono; style.bold: false}\n" }},
+	{Name: "shape-label-mono-bold", Mono: true, Src: func(q, _ string) string {
 		return "a: " + q + " {style.font: mono; style.bold: true}\n"
 	}},
-	{Name: "shape-label-mono-italic", Face: "mono-italic", Src: func(q, _ string) string {
-		return "a: " + q + " {style.font: mono; style.italic: true}\n"
+	{Name: "shape-label-mono-italic", Mono: true, Src: func(q, _ string) string {
+		return "a: " + q + " {style.font: mono; style.bold: false; style.italic: true}\n"
 	}},
-	{Name: "connection-label", Face: "italic", Src: func(q, _ string) string { return "a -> b: " + q + "\n" }},
-	{Name: "connection-label-bold", Face: "bold", Src: func(q, _ string) string {
+	{Name: "connection-label", Mono: false, Src: func(q, _ string) string { return "a -> b: " + q + "\n" }},
+	{Name: "connection-label-bold", Mono: false, Src: func(q, _ string) string {
 		return "a -> b: " + q + " {style.bold: true; style.italic: false}\n"
 	}},
-	{Name: "arrowhead-label", Face: "italic", Src: func(q, _ string) string {
+	{Name: "arrowhead-label", Mono: false, Src: func(q, _ string) string {
 		return "a <-> b: {source-arrowhead: " + q + "; target-arrowhead.label: " + q + "}\n"
 	}},
-	{Name: "uml-class-member", Face: "mono", Src: func(q, raw string) string {
+	{Name: "uml-class-member", Mono: true, Src: func(q, raw string) string {
 		return "a: {shape: class\n  " + q + ": " + q + "\n  " + dq(raw+"(x)") + ": " + q + "\n}\n"
 	}},
-	{Name: "uml-class-header", Face: "mono", Src: func(q, _ string) string { return "a: " + q + " {shape: class; f: int}\n" }},
-	{Name: "sql-column", Face: "regular", Src: func(q, _ string) string {
+	{Name: "uml-class-header", Mono: true, Src: func(q, _ string) string { return "a: " + q + " {shape: class; f: int}\n" }},
+	{Name: "sql-column", Mono: false, Src: func(q, _ string) string {
 		return "a: {shape: sql_table\n  " + q + ": " + q + " {constraint: " + q + "}\n}\n"
 	}},
-	{Name: "sql-header", Face: "regular", Src: func(q, _ string) string { return "a: " + q + " {shape: sql_table; id: int}\n" }},
-	{Name: "code-block", Face: "mono", Src: func(_, raw string) string { return "a: |||go\n" + raw + "\n|||\n" }},
-	{Name: "connection-code-label", Face: "mono", Src: func(_, raw string) string { return "a -> b: |||go\n" + raw + "\n|||\n" }},
-	{Name: "markdown-plain", Face: "regular", MD: true, Src: func(_, raw string) string { return "a: |||md\nx" + raw + "x\n|||\n" }},
-	{Name: "markdown-bold", Face: "bold", MD: true, Src: func(_, raw string) string { return "a: |||md\n**x" + raw + "x**\n|||\n" }},
-	{Name: "markdown-italic", Face: "italic", MD: true, Src: func(_, raw string) string { return "a: |||md\n*x" + raw + "x*\n|||\n" }},
-	{Name: "markdown-code", Face: "mono", MD: true, Src: func(_, raw string) string { return "a: |||md\n`x" + raw + "x`\n|||\n" }},
-	{Name: "markdown-heading", Face: "semibold", MD: true, Src: func(_, raw string) string { return "a: |||md\n# x" + raw + "x\n|||\n" }},
-	{Name: "connection-markdown-label", Face: "regular", MD: true, Src: func(_, raw string) string {
+	{Name: "sql-header", Mono: false, Src: func(q, _ string) string { return "a: " + q + " {shape: sql_table; id: int}\n" }},
+	{Name: "code-block", Mono: true, Src: func(_, raw string) string { return "a: |||go\n" + raw + "\n|||\n" }},
+	{Name: "connection-code-label", Mono: true, Src: func(_, raw string) string { return "a -> b: |||go\n" + raw + "\n|||\n" }},
+	{Name: "markdown-plain", Mono: false, MD: true, Src: func(_, raw string) string { return "a: |||md\nx" + raw + "x\n|||\n" }},
+	{Name: "markdown-bold", Mono: false, MD: true, Src: func(_, raw string) string { return "a: |||md\n**x" + raw + "x**\n|||\n" }},
+	{Name: "markdown-italic", Mono: false, MD: true, Src: func(_, raw string) string { return "a: |||md\n*x" + raw + "x*\n|||\n" }},
+	{Name: "markdown-code", Mono: true, MD: true, Src: func(_, raw string) string { return "a: |||md\n`x" + raw + "x`\n|||\n" }},
+	{Name: "markdown-heading", Mono: false, MD: true, Src: func(_, raw string) string { return "a: |||md\n# x" + raw + "x\n|||\n" }},
+	{Name: "connection-markdown-label", Mono: false, MD: true, Src: func(_, raw string) string {
 		return "a -> b: |||md\nx" + raw + "x\n|||\n"
 	}},
-	{Name: "tooltip-appendix", Face: "regular", Appendix: true, Src: func(q, _ string) string { return "a.tooltip: " + q + "\n" }},
-	{Name: "link-appendix", Face: "regular", Appendix: true, Src: func(_, raw string) string {
+	{Name: "tooltip-appendix", Mono: false, Appendix: true, Src: func(q, _ string) string { return "a.tooltip: " + q + "\n" }},
+	{Name: "link-appendix", Mono: false, Appendix: true, Src: func(_, raw string) string {
 		return "a.link: " + dq("https://example.com/"+raw) + "\n"
 	}},
-	{Name: "tooltip-positioned", Face: "regular", MD: true, Src: func(_, raw string) string {
+	{Name: "tooltip-positioned", Mono: false, MD: true, Src: func(_, raw string) string {
 		return "a: {tooltip: " + dq("x"+raw+"x") + "; tooltip.near: top-center}\n"
 	}},
-	{Name: "legend-title", Face: "bold", Src: func(q, _ string) string {
+	{Name: "legend-title", Mono: false, Src: func(q, _ string) string {
 		return "vars: {d2-legend: " + q + " {\n  a: e {shape: circle}\n}}\nx -> y\n"
 	}},
-	{Name: "legend-entry", Face: "regular", Src: func(q, _ string) string {
+	{Name: "legend-entry", Mono: false, Src: func(q, _ string) string {
 		return "vars: {d2-legend: {\n  a: " + q + " {shape: circle}\n  a -> b: " + q + "\n}}\nx -> y\n"
 	}},
 }
@@ -301,29 +301,22 @@ func c47PosByName(n string) *c47Pos {
 	return nil
 }
 
-// faceFont: the full font behind an embedded face for the enumeration (sketch switches the proportional family).
-func faceFont(face string, sketch bool) *fullFont {
+// familyFonts: the full fonts of the family a position draws with (sketch switches the proportional family).
+func familyFonts(mono, sketch bool) []*fullFont {
 	fam := d2fonts.SourceSansPro
 	if sketch {
 		fam = d2fonts.HandDrawn
 	}
-	switch face {
-	case "regular":
-		return fullFontFor(fam, d2fonts.FONT_STYLE_REGULAR)
-	case "bold":
-		return fullFontFor(fam, d2fonts.FONT_STYLE_BOLD)
-	case "italic":
-		return fullFontFor(fam, d2fonts.FONT_STYLE_ITALIC)
-	case "semibold":
-		return fullFontFor(fam, d2fonts.FONT_STYLE_SEMIBOLD)
-	case "mono":
-		return fullFontFor(d2fonts.SourceCodePro, d2fonts.FONT_STYLE_REGULAR)
-	case "mono-bold":
-		return fullFontFor(d2fonts.SourceCodePro, d2fonts.FONT_STYLE_BOLD)
-	case "mono-italic":
-		return fullFontFor(d2fonts.SourceCodePro, d2fonts.FONT_STYLE_ITALIC)
+	if mono {
+		fam = d2fonts.SourceCodePro
 	}
-	return nil
+	var out []*fullFont
+	for _, ff := range fullFonts() {
+		if ff.key.Family == fam {
+			out = append(out, ff)
+		}
+	}
+	return out
 }
 
 // ---- oracle ------------------------------------------------------------------------------------------------
@@ -421,6 +414,7 @@ func c47Oracle(in string) eng.Res {
 	}
 	corpus := d.GetCorpus()
 	checked, runs := 0, 0
+	var deferred *eng.Res
 	faces := map[string]bool{}
 	for _, t := range x.Texts {
 		drawn := false
@@ -457,12 +451,22 @@ func c47Oracle(in string) eng.Res {
 			checked++
 			si, ok := hasGlyph(s.f, r)
 			if !ok {
-				where := "subsetter-dropped-rune-present-in-corpus:" + suffix
+				where := "subsetter-drops-bmp-rune-present-in-corpus:" + suffix
+				if r > 0xffff {
+					where = "subsetter-drops-supplementary-plane-rune"
+				}
 				if !strings.ContainsRune(corpus, r) {
 					where = "corpus-omits-drawn-text:" + pos.Name
 				}
-				return eng.Bad("glyph-missing-from-subset:"+where,
+				res := eng.Bad("glyph-missing-from-subset:"+where,
 					fmt.Sprintf("U+%04X %q is drawn with %s (%s, full font has glyph %d) in run %q but the embedded subset has no glyph for it\nd2:\n%s", r, r, fam, s.full.name, fi, clipb([]byte(t.Text), 120), src))
+				if r > 0xffff && strings.ContainsRune(corpus, r) {
+					if deferred == nil {
+						deferred = &res // keep looking: a failure of another kind takes precedence
+					}
+					continue
+				}
+				return res
 			}
 			fo, ferr := outline(s.full.f, fi)
 			so, serr := outline(s.f, si)
@@ -471,6 +475,9 @@ func c47Oracle(in string) eng.Res {
 					fmt.Sprintf("U+%04X %q drawn with %s (%s): full font glyph %d and subset glyph %d have different outlines (subset error: %v)\nd2:\n%s", r, r, fam, s.full.name, fi, si, serr, src))
 			}
 		}
+	}
+	if deferred != nil {
+		return *deferred
 	}
 	c47RunesChecked.Add(int64(checked))
 	fs := sortedKeys(faces)
@@ -533,7 +540,7 @@ func init() {
 	eng.Register(&eng.Check{
 		ID: "C47", Level: "exploration", HangBound: 900 * time.Second,
 		QuickBudget: 110 * time.Second, ThoroughBudget: 24 * time.Minute,
-		Rule: "for every face d2 can embed (SourceSansPro regular/bold/italic/semibold, SourceCodePro regular/bold/italic, HandDrawn regular/bold/italic in sketch mode): every drawable rune of the full font's cmap (U+0021..U+2FFFF), packed 44 per diagram together with 4 runes no d2 font has, placed in every text position that draws with that face (shape/container/connection/arrowhead labels with bold/italic/mono styles, UML class members and header, SQL columns and header, code blocks, markdown plain/bold/italic/code/heading, tooltip and link appendix, positioned tooltip, legend title and entries); plus every position x text-transform {none, uppercase, lowercase, capitalize} x theme {default, terminal} x sketch {off,on} with a case-sensitive sample text; each diagram goes d2lib.Compile (dagre) -> d2svg.Render (-> appendix.Append), the @font-face WOFF data URIs are decoded (own WOFF1->sfnt reassembly, golang.org/x/image/font/sfnt), text runs are attributed to faces by evaluating the SVG's own font-family CSS rules, and every drawn rune that the full font (identified by the subset's name table) has must have a glyph with the identical outline in the subset; non-trivial = at least one drawn rune was compared",
+		Rule: "for every font family d2 can embed (SourceSansPro regular/bold/italic/semibold, SourceCodePro regular/bold/italic, HandDrawn regular/bold/italic in sketch mode): every drawable rune of the union of the full fonts' cmaps (U+0021..U+2FFFF), packed 44 per diagram together with 4 runes no d2 font has, placed in every text position that draws with that family (shape/container/connection/arrowhead labels with bold/italic/mono styles, UML class members and header, SQL columns and header, code blocks, markdown plain/bold/italic/code/heading, tooltip and link appendix, positioned tooltip, legend title and entries); plus every position x text-transform {none, uppercase, lowercase, capitalize} x theme {default, terminal} x sketch {off,on} with a case-sensitive sample text; each diagram goes d2lib.Compile (dagre) -> d2svg.Render (-> appendix.Append), the @font-face WOFF data URIs are decoded (own WOFF1->sfnt reassembly, golang.org/x/image/font/sfnt), text runs are attributed to faces by evaluating the SVG's own font-family CSS rules, and every drawn rune that the full font (identified by the subset's name table) has must have a glyph with the identical outline in the subset; non-trivial = at least one drawn rune was compared",
 		Assumptions: []string{
 			"text runs = character data under <text> or <foreignObject>, excluding <style>/<title>/<desc>; a run whose computed font-family has no @font-face in the document is not judged (counted in runs_without_embedded_font)",
 			"CSS matching covers the selector forms the renderer emits (descendant combinators of tag/class compounds, specificity, source order); selectors with other syntax that carry a font-family would be counted in the outcome (skippedSel) — none occur",
@@ -549,12 +556,23 @@ func init() {
 				b, _ := json.Marshal(q)
 				w.Eval("draw", string(b))
 			}
+			runeCache := map[string][]rune{}
 			runesFor := func(p c47Pos, sketch bool) []rune {
-				ff := faceFont(p.Face, sketch)
-				if ff == nil {
-					return nil
+				key := fmt.Sprint(p.Mono, sketch)
+				rs := runeCache[key]
+				if rs == nil {
+					set := map[rune]bool{}
+					for _, ff := range familyFonts(p.Mono, sketch) {
+						for _, r := range cmapRunes(ff.f) {
+							set[r] = true
+						}
+					}
+					for r := range set {
+						rs = append(rs, r)
+					}
+					sort.Slice(rs, func(i, j int) bool { return rs[i] < rs[j] })
+					runeCache[key] = rs
 				}
-				rs := cmapRunes(ff.f)
 				if p.MD {
 					var f []rune
 					for _, r := range rs {
@@ -579,13 +597,13 @@ func init() {
 			})
 			for _, sk := range []bool{false, true} {
 				sk := sk
-				name := "every cmap rune x every position of its face, 44+4 per diagram"
+				name := "every cmap rune x every position of its family, 44+4 per diagram"
 				if sk {
 					name += ", sketch"
 				}
 				w.Phase(name, func() {
 					for _, p := range c47Positions {
-						if sk && strings.HasPrefix(p.Face, "mono") {
+						if sk && p.Mono {
 							continue // sketch mode does not change the mono family
 						}
 						for _, t := range c47Chunks(runesFor(p, sk), 44, absent) {
@@ -596,14 +614,13 @@ func init() {
 			}
 			if w.Thorough() {
 				w.Phase("every cmap rune alone, one position per face", func() {
-					seen := map[string]bool{}
+					alone := map[string]bool{"sql-header": true, "shape-label": true, "shape-label-italic": true, "markdown-heading": true,
+						"code-block": true, "shape-label-mono-bold": true, "shape-label-mono-italic": true}
 					for _, sk := range []bool{false, true} {
 						for _, p := range c47Positions {
-							k := fmt.Sprint(p.Face, sk)
-							if seen[k] || p.MD || (sk && strings.HasPrefix(p.Face, "mono")) {
+							if !alone[p.Name] || (sk && p.Mono) {
 								continue
 							}
-							seen[k] = true
 							for _, r := range runesFor(p, sk) {
 								ev(c47In{Pos: p.Name, Text: string(r), Sketch: sk})
 							}
